@@ -12,6 +12,8 @@ type echoProc struct {
 	pending []Value // parts of the line being written
 	lines   []Value // complete lines (string values, without the newline)
 	closed  bool
+	limit   int // > 0: the process exits (closing its stdout) after echoing that many lines
+	echoed  int
 }
 
 func (ex *Exec) procOf(o *Opaque) *echoProc {
@@ -27,7 +29,25 @@ type echoProcBox struct{ p *echoProc }
 func init() {
 	stdModels["os/exec.Command"] = func(ex *Exec, c *frame, fn *ssa.Function, a []Value) Value {
 		cmd := ex.newOpaque("execCmd")
-		cmd.Fields["proc"] = &echoProcBox{p: &echoProc{}}
+		p := &echoProc{}
+		// convention of the harnesses: a last argument that is a number n > 0 makes the echo process exit
+		// after n lines (natively: a shell loop that does just that)
+		if sl, ok := a[1].(Slice); ok && sl.Len > 0 {
+			if last, isStr := sl.Arr.E[sl.Off+sl.Len-1].V.(string); isStr {
+				n := 0
+				for _, ch := range last {
+					if ch < '0' || ch > '9' {
+						n = -1
+						break
+					}
+					n = n*10 + int(ch-'0')
+				}
+				if n > 0 && len(last) > 0 {
+					p.limit = n
+				}
+			}
+		}
+		cmd.Fields["proc"] = &echoProcBox{p: p}
 		ex.note("subprocess-echo-model")
 		return cmd
 	}
@@ -77,6 +97,10 @@ func init() {
 			}
 			p.pending = nil
 			p.lines = append(p.lines, line)
+			p.echoed++
+			if p.limit > 0 && p.echoed >= p.limit {
+				p.closed = true // the process has echoed its share and exits
+			}
 			return Tuple{int64(1), Iface{}}
 		}
 		p.pending = append(p.pending, s)
@@ -123,4 +147,45 @@ func init() {
 		p.lines = p.lines[1:]
 		return Tuple{Slice{Arr: &Array{StrSrc: strConcat(line, "\n")}, Len: -1, Cap: -1}, Iface{}}
 	}
+
+	// bufio.Scanner over the same pipes (default split function: lines): Scan blocks until a line is
+	// available or the stream ended; Bytes/Text give the line without its newline; at the end of the stream
+	// Scan reports false and Err reports nil (the documented contract: io.EOF is not an error for a Scanner).
+	stdModels["bufio.NewScanner"] = func(ex *Exec, c *frame, fn *ssa.Function, a []Value) Value {
+		r := ex.newOpaque("bufScanner")
+		src := ex.forceIface(a[0])
+		r.Fields["src"] = src.V
+		r.Fields["tok"] = ""
+		return r
+	}
+	stdModels["(*bufio.Scanner).Buffer"] = func(ex *Exec, c *frame, fn *ssa.Function, a []Value) Value { return nil }
+	stdModels["(*bufio.Scanner).Scan"] = func(ex *Exec, c *frame, fn *ssa.Function, a []Value) Value {
+		r := a[0].(*Opaque)
+		src, _ := r.Fields["src"].(*Opaque)
+		p := ex.procOf(src)
+		if src.Kind == "pipeErr" {
+			if !p.closed {
+				ex.scheduler().block(func() bool { return p.closed }, "scan-stderr")
+			}
+			return false
+		}
+		if len(p.lines) == 0 && !p.closed {
+			ex.scheduler().block(func() bool { return len(p.lines) > 0 || p.closed }, "scan-stdout")
+		}
+		if len(p.lines) == 0 {
+			ex.note("scan-eof")
+			return false
+		}
+		ex.note("scan-line")
+		r.Fields["tok"] = p.lines[0]
+		p.lines = p.lines[1:]
+		return true
+	}
+	stdModels["(*bufio.Scanner).Bytes"] = func(ex *Exec, c *frame, fn *ssa.Function, a []Value) Value {
+		return Slice{Arr: &Array{StrSrc: a[0].(*Opaque).Fields["tok"]}, Len: -1, Cap: -1}
+	}
+	stdModels["(*bufio.Scanner).Text"] = func(ex *Exec, c *frame, fn *ssa.Function, a []Value) Value {
+		return a[0].(*Opaque).Fields["tok"]
+	}
+	stdModels["(*bufio.Scanner).Err"] = func(ex *Exec, c *frame, fn *ssa.Function, a []Value) Value { return Iface{} }
 }
